@@ -318,6 +318,10 @@ func (e *Enc) rangeNext(fr *frame, st *State, x *ssa.Next) Value {
 		// at most as many iterations as the map had entries when it started
 		if !e.loopInsertsInto(fr, x, it.mapVal.typ) {
 			st.assume(implies(ok, "(< "+cnt+" "+it.lenStart+")"))
+			if !e.loopDeletesFrom(fr, x, it.mapVal.typ) {
+				// an unmodified map is iterated completely: exactly len iterations
+				st.assume(implies(not(ok), "(= "+cnt+" "+it.lenStart+")"))
+			}
 		}
 		st.assume("(>= " + cnt + " 0)")
 		e.ghostSet(st, it.cntGhost, ite(ok, "(+ "+cnt+" 1)", cnt))
@@ -901,6 +905,46 @@ func (e *Enc) loopInsertsInto(fr *frame, nx *ssa.Next, mt types.Type) bool {
 			case *ssa.UnOp:
 				if y.Op == token.ARROW {
 					return true
+				}
+			}
+		}
+	}
+	return false
+}
+
+// loopDeletesFrom: does the loop around the Next instruction delete from a map
+// of the given type directly? (calls are covered by loopInsertsInto's write-set test)
+func (e *Enc) loopDeletesFrom(fr *frame, nx *ssa.Next, mt types.Type) bool {
+	var li *loopInfo
+	for _, l := range fr.loops {
+		if l.blocks[nx.Block()] && (li == nil || len(l.blocks) < len(li.blocks)) {
+			li = l
+		}
+	}
+	if li == nil {
+		return true
+	}
+	domKey, _, _ := e.mapKeys(mt)
+	for b := range li.blocks {
+		for _, ins := range b.Instrs {
+			if c, ok := ins.(*ssa.Call); ok {
+				if bi, isB := c.Common().Value.(*ssa.Builtin); isB && !c.Common().IsInvoke() {
+					if bi.Name() == "delete" && types.Identical(c.Common().Args[0].Type().Underlying(), mt.Underlying()) {
+						return true
+					}
+					continue
+				}
+			}
+			switch ins.(type) {
+			case *ssa.Call, *ssa.Defer:
+				keys, all, _ := e.v.instrWrites(e, ins, fr)
+				if all {
+					return true
+				}
+				for _, k := range keys {
+					if k == domKey {
+						return true
+					}
 				}
 			}
 		}
